@@ -3,13 +3,21 @@
 (* Inlets and outlets move each particle across exactly once (C16).        *)
 (*                                                                         *)
 (* 1-D abstraction along the flow direction.  A particle row is            *)
-(*   [id, s, t1, t2, a, b]                                                 *)
+(*   [id, s, t1, t2, a, b, tag]                                            *)
 (* id: identity carried by the particle; s: signed position along the flow *)
 (* direction measured from the inlet plane; t1, t2: transverse             *)
 (* coordinates; a, b: two copied property values (all integers, lattice    *)
-(* units).  A state is [inlet, fluid, outlet]: three sequences of rows     *)
-(* (the order inside an array is not promised by anything and is never     *)
-(* constrained).  Geometry g = [Lin, X, Lout, copyq, active, slack]:       *)
+(* units); tag: 0 Local, 1 Remote, 2 Ghost.  A state is                    *)
+(* [inlet, fluid, outlet, nreal]: three sequences of rows in array order   *)
+(* and the three num_real_particles.  The particles of the statement are   *)
+(* the rows of the real range 1..nreal (RealOf); their order is never      *)
+(* constrained, but every array must be Aligned after an update: exactly   *)
+(* the Local rows form the real range, so a particle that entered is seen  *)
+(* by the solver and a ghost/remote row never is.  Non-local rows (copies  *)
+(* owned by a periodic boundary or another process) are not particles of   *)
+(* the statement: they must not be duplicated, promoted or altered (one    *)
+(* lying past a plane may also be dropped or passed on as non-local).      *)
+(* Geometry g = [Lin, X, Lout, copyq, active, slack]:       *)
 (*   inlet zone  [-Lin, 0)      fluid  s >= 0                              *)
 (*   outlet plane at X          outlet zone [X, X + Lout)                  *)
 (* copyq: whether b is among the properties an outlet copies; active: the  *)
@@ -44,6 +52,17 @@ Abs(n) == IF n < 0 THEN -n ELSE n
 AllIds(st) == Ids(st.inlet) \cup Ids(st.fluid) \cup Ids(st.outlet)
 NRows(st) == Len(st.inlet) + Len(st.fluid) + Len(st.outlet)
 Unique(st) == NRows(st) = Cardinality(AllIds(st))
+Min(x, y) == IF x < y THEN x ELSE y
+\* the particles the solver sees: the real range of every array
+RealOf(st) == [inlet  |-> SubSeq(st.inlet, 1, Min(st.nreal[1], Len(st.inlet))),
+               fluid  |-> SubSeq(st.fluid, 1, Min(st.nreal[2], Len(st.fluid))),
+               outlet |-> SubSeq(st.outlet, 1, Min(st.nreal[3], Len(st.outlet)))]
+NL(q) == SelectSeq(q, LAMBDA r : r.tag # 0)
+NLOf(st) == [inlet |-> NL(st.inlet), fluid |-> NL(st.fluid), outlet |-> NL(st.outlet)]
+\* all Local rows first, and num_real_particles counts exactly them
+AlignedArr(q, n) == n \in 0..Len(q) /\ \A k \in DOMAIN q : (k <= n) <=> (q[k].tag = 0)
+Aligned(st) == /\ AlignedArr(st.inlet, st.nreal[1]) /\ AlignedArr(st.fluid, st.nreal[2])
+               /\ AlignedArr(st.outlet, st.nreal[3])
 
 -----------------------------------------------------------------------------
 (* (P) property layer *)
@@ -51,13 +70,13 @@ Near(g, u, v) == Abs(u - v) <= g.slack
 Shifted(g, r, r2, d) ==
     /\ r2.id = r.id /\ Near(g, r.s + d, r2.s)
     /\ Near(g, r.t1, r2.t1) /\ Near(g, r.t2, r2.t2)
-    /\ r2.a = r.a /\ r2.b = r.b
+    /\ r2.a = r.a /\ r2.b = r.b /\ r2.tag = r.tag
 Same(g, r, r2) == Shifted(g, r, r2, 0)
 \* what an outlet must preserve of an absorbed fluid particle
 SameView(g, r, r2) ==
     /\ r2.id = r.id /\ Near(g, r.s, r2.s)
     /\ Near(g, r.t1, r2.t1) /\ Near(g, r.t2, r2.t2)
-    /\ r2.a = r.a /\ (g.copyq => r2.b = r.b)
+    /\ r2.a = r.a /\ (g.copyq => r2.b = r.b) /\ r2.tag = r.tag
 \* every row of q1 (unique ids) is exactly once and unchanged in q2, nothing else
 BagSame(g, q1, q2) ==
     /\ Len(q1) = Len(q2)
@@ -119,10 +138,51 @@ OutletFrame(g, b, a) ==
     /\ Ids(a.outlet) \subseteq Ids(b.outlet) \cup Ids(b.fluid)
 
 \* particles that entered / left the fluid in a call, as observed
-Entered(c) == Cardinality({i \in Ids(c.before.inlet) : Cnt(c.after.fluid, i) >= 1})
-Left(c)    == Cardinality({i \in Ids(c.before.fluid) : Cnt(c.after.fluid, i) = 0})
-Deleted(c) == Cardinality(AllIds(c.before) \ AllIds(c.after))
-CountStep(c) == Len(c.after.fluid) = Len(c.before.fluid) + Entered(c) - Left(c)
+\* (v: a call whose before/after are the real ranges, View(c))
+View(c) == [c EXCEPT !.before = RealOf(@), !.after = RealOf(@)]
+EnteredV(v) == Cardinality({i \in Ids(v.before.inlet) : Cnt(v.after.fluid, i) >= 1})
+LeftV(v)    == Cardinality({i \in Ids(v.before.fluid) : Cnt(v.after.fluid, i) = 0})
+DeletedV(v) == Cardinality(AllIds(v.before) \ AllIds(v.after))
+Entered(c) == EnteredV(View(c))
+Left(c) == LeftV(View(c))
+Deleted(c) == DeletedV(View(c))
+CountStep(v) == Len(v.after.fluid) = Len(v.before.fluid) + EnteredV(v) - LeftV(v)
+
+\* -- non-local rows (nb, na: NLOf of the states; rb, ra: the real ranges)
+NLIds(n) == Ids(n.inlet) \cup Ids(n.fluid) \cup Ids(n.outlet)
+NLBase(nb, na, rb, ra) ==      \* no promotion, no demotion, no creation
+    /\ NLIds(nb) \cap AllIds(ra) = {}
+    /\ AllIds(rb) \cap NLIds(na) = {}
+    /\ NLIds(na) \subseteq NLIds(nb)
+NLInlet(g, nb, na) ==
+    /\ BagSame(g, nb.outlet, na.outlet)
+    /\ \A r \in Range(nb.fluid) :
+          Cnt(na.fluid, r.id) = 1 /\ Same(g, r, RowOf(na.fluid, r.id))
+    /\ \A r \in Range(nb.inlet) :
+          /\ Cnt(na.inlet, r.id) = 1
+          /\ Cnt(na.fluid, r.id) <= 1 /\ Cnt(na.outlet, r.id) = 0
+          /\ LET r2 == RowOf(na.inlet, r.id)
+             IN \/ Same(g, r, r2)
+                \/ MayEnter(g, r) /\ Shifted(g, r, r2, -g.Lin)
+          /\ Cnt(na.fluid, r.id) = 1 =>
+                MayEnter(g, r) /\ Same(g, r, RowOf(na.fluid, r.id))
+NLOutlet(g, nb, na) ==
+    /\ BagSame(g, nb.inlet, na.inlet)
+    /\ \A r \in Range(nb.fluid) :
+          LET cf == Cnt(na.fluid, r.id)
+              co == Cnt(na.outlet, r.id)
+          IN /\ cf + co <= 1 /\ Cnt(na.inlet, r.id) = 0
+             /\ cf = 1 => Same(g, r, RowOf(na.fluid, r.id))
+             /\ co = 1 => MayLeave(g, r) /\ SameView(g, r, RowOf(na.outlet, r.id))
+             /\ cf + co = 0 => MayLeave(g, r)
+    /\ \A r \in Range(nb.outlet) :
+          LET c == Cnt(na.outlet, r.id)
+          IN /\ c <= 1 /\ Cnt(na.fluid, r.id) = 0
+             /\ c = 1 => Same(g, r, RowOf(na.outlet, r.id))
+             /\ c = 0 => MayDelete(g, r)
+NLUnchanged(g, nb, na) ==
+    BagSame(g, nb.inlet, na.inlet) /\ BagSame(g, nb.fluid, na.fluid)
+    /\ BagSame(g, nb.outlet, na.outlet)
 
 Unchanged(g, b, a) ==
     BagSame(g, b.inlet, a.inlet) /\ BagSame(g, b.fluid, a.fluid)
@@ -133,27 +193,36 @@ Pick(cond, name) == IF cond THEN {} ELSE {name}
 \* the clauses of the statement broken by one call
 Failed(g, c) ==
     IF ~c.ok THEN {"Returns"}
-    ELSE IF ~Unique(c.before) THEN {"HarnessNotUnique"}
-    ELSE LET b == c.before
-             a == c.after
-         IN IF c.stage \notin g.active THEN Pick(Unchanged(g, b, a), "StageFilter")
+    ELSE IF ~Unique(c.before) \/ ~Aligned(c.before) THEN {"HarnessNotUnique"}
+    ELSE LET b == RealOf(c.before)      \* the particles: real ranges
+             a == RealOf(c.after)
+             nb == NLOf(c.before)       \* the non-local rows
+             na == NLOf(c.after)
+             v == View(c)
+         IN Pick(Aligned(c.after), "Aligned")
+            \cup Pick(NLBase(nb, na, b, a), "NonLocalRows")
+            \cup
+            IF c.stage \notin g.active
+            THEN Pick(Unchanged(g, b, a) /\ NLUnchanged(g, nb, na), "StageFilter")
             ELSE IF c.kind = "in"
             THEN Pick(InletCopy(g, b, a), "InletCopy")
                  \cup Pick(InletProps(g, b, a), "InletProps")
                  \cup Pick(InletRecycle(g, b, a), "InletRecycle")
                  \cup Pick(InletFrame(g, b, a), "NothingElse")
-                 \cup Pick(CountStep(c), "Count")
+                 \cup Pick(CountStep(v), "Count")
+                 \cup Pick(NLInlet(g, nb, na), "NonLocalRows")
             ELSE Pick(OutletMove(g, b, a), "OutletMove")
                  \cup Pick(OutletProps(g, b, a), "OutletProps")
                  \cup Pick(OutletDelete(g, b, a), "OutletDelete")
                  \cup Pick(OutletFrame(g, b, a), "NothingElse")
-                 \cup Pick(CountStep(c), "Count")
+                 \cup Pick(CountStep(v), "Count")
+                 \cup Pick(NLOutlet(g, nb, na), "NonLocalRows")
 
-\* -- over a history (sequence of calls)
+\* -- over a history (sequence of calls; these operators take the Views)
 Rank(st, i) == IF i \in Ids(st.outlet) THEN 2 ELSE IF i \in Ids(st.fluid) THEN 1 ELSE 0
 Net(calls) ==   \* entered - left after each call
     LET F[k \in 0..Len(calls)] ==
-          IF k = 0 THEN 0 ELSE F[k - 1] + Entered(calls[k]) - Left(calls[k])
+          IF k = 0 THEN 0 ELSE F[k - 1] + EnteredV(calls[k]) - LeftV(calls[k])
     IN F
 \* identities deleted by the calls before call k
 GoneBefore(calls) ==
@@ -174,6 +243,7 @@ ExactlyOnce(calls, h, k) ==
 \* what the harness does between two calls: advects and renames recycled
 \* inlet originals; it never changes membership, copied values or counts
 LinkOK(a, b) ==
+    /\ a.nreal = b.nreal
     /\ Len(a.inlet) = Len(b.inlet) /\ Len(a.fluid) = Len(b.fluid)
     /\ Len(a.outlet) = Len(b.outlet)
     /\ Ids(a.fluid) = Ids(b.fluid) /\ Ids(a.outlet) = Ids(b.outlet)
@@ -182,14 +252,17 @@ Links(calls) == \A k \in 2..Len(calls) : LinkOK(calls[k - 1].after, calls[k].bef
 
 \* the clauses broken at call k of a history (h = Hist(calls)), and over the
 \* whole history
-HFailedAtH(g, calls, h, k) ==
+Views(calls) == [k \in DOMAIN calls |-> View(calls[k])]
+HFailedAtH(g, calls, vs, h, k) ==
     {<<k, n>> : n \in Failed(g, calls[k])}
-    \cup (IF calls[k].ok /\ ~CountHistory(calls, h, k) THEN {<<k, "CountHistory">>} ELSE {})
-    \cup (IF calls[k].ok /\ ~ExactlyOnce(calls, h, k) THEN {<<k, "ExactlyOnce">>} ELSE {})
-HFailedAt(g, calls, k) == HFailedAtH(g, calls, Hist(calls), k)
+    \cup (IF calls[k].ok /\ ~CountHistory(vs, h, k) THEN {<<k, "CountHistory">>} ELSE {})
+    \cup (IF calls[k].ok /\ ~ExactlyOnce(vs, h, k) THEN {<<k, "ExactlyOnce">>} ELSE {})
+HFailedAt(g, calls, k) ==
+    LET vs == Views(calls) IN HFailedAtH(g, calls, vs, Hist(vs), k)
 HFailed(g, calls) ==
-    LET h == Hist(calls)
-    IN UNION {HFailedAtH(g, calls, h, k) : k \in DOMAIN calls}
+    LET vs == Views(calls)
+        h == Hist(vs)
+    IN UNION {HFailedAtH(g, calls, vs, h, k) : k \in DOMAIN calls}
 
 -----------------------------------------------------------------------------
 (* (M) mechanism layer: the update() methods as written *)
@@ -207,23 +280,51 @@ RemoveRows(q, S) ==
                IN SubSeq([p EXCEPT ![i] = p[Len(p)]], 1, Len(p) - 1)
     IN R[S]
 
+\* align_particles: the index-array algorithm (a Local row found behind a
+\* non-local one is swapped with the first non-local row), then the gather
+AlignIndex(q) ==
+    LET n == Len(q)
+        F[i \in 0..n] ==
+          IF i = 0 THEN [ia |-> [k \in 1..n |-> 0], ni |-> 1]
+          ELSE LET p == F[i - 1]
+               IN IF q[i].tag = 0
+                  THEN IF i # p.ni
+                       THEN [ia |-> [p.ia EXCEPT ![p.ni] = i, ![i] = p.ia[p.ni]],
+                             ni |-> p.ni + 1]
+                       ELSE [ia |-> [p.ia EXCEPT ![i] = i], ni |-> p.ni + 1]
+                  ELSE [ia |-> [p.ia EXCEPT ![i] = i], ni |-> p.ni]
+    IN F[n].ia
+AlignRows(q) == LET ia == AlignIndex(q) IN [i \in 1..Len(q) |-> q[ia[i]]]
+NLocal(q) == Cardinality({k \in DOMAIN q : q[k].tag = 0})
+
+\* x = pa.x is the real range only: non-local rows are never selected
 MInlet(g, st) ==
-    LET idx == SelIdx(st.inlet, LAMBDA r : IoId(-r.s, g.Lin) = 0)   \* ioid == 0
+    LET nr == st.nreal[1]
+        idx == SelIdx(SubSeq(st.inlet, 1, nr), LAMBDA r : IoId(-r.s, g.Lin) = 0)
         S == Range(idx)
+        fl == AlignRows(st.fluid \o Gather(st.inlet, idx))   \* extract, align
     IN [inlet |-> [k \in DOMAIN st.inlet |->
                      IF k \in S THEN [st.inlet[k] EXCEPT !.s = @ - g.Lin]
                      ELSE st.inlet[k]],
-        fluid |-> st.fluid \o Gather(st.inlet, idx),
-        outlet |-> st.outlet]
+        fluid |-> fl,
+        outlet |-> st.outlet,
+        nreal |-> <<nr, NLocal(fl), st.nreal[3]>>]
 MOutlet(g, st) ==
-    LET idx == SelIdx(st.fluid, LAMBDA r : IoId(r.s - g.X, FarFluid) = 1)
-        del == {k \in DOMAIN st.outlet : IoId(st.outlet[k].s - g.X, g.Lout) = 2}
+    LET idx == SelIdx(SubSeq(st.fluid, 1, st.nreal[2]),
+                      LAMBDA r : IoId(r.s - g.X, FarFluid) = 1)
+        old == Ids(SubSeq(st.outlet, 1, st.nreal[3]))
         mv  == [j \in 1..Len(idx) |->
                   IF g.copyq THEN st.fluid[idx[j]]
                   ELSE [st.fluid[idx[j]] EXCEPT !.b = 0]]
-    IN [inlet |-> st.inlet,
-        fluid |-> RemoveRows(st.fluid, Range(idx)),
-        outlet |-> RemoveRows(st.outlet \o mv, del)]
+        o1  == AlignRows(st.outlet \o mv)                     \* extract, align
+        \* ioid of the outlet rows was evaluated before the transfer; the
+        \* absorbed rows carry the fluid's value (1) or the default (0)
+        del == {k \in 1..NLocal(o1) : o1[k].id \in old /\
+                                      IoId(o1[k].s - g.X, g.Lout) = 2}
+        fl == AlignRows(RemoveRows(st.fluid, Range(idx)))
+        ou == AlignRows(RemoveRows(o1, del))
+    IN [inlet |-> st.inlet, fluid |-> fl, outlet |-> ou,
+        nreal |-> <<st.nreal[1], NLocal(fl), NLocal(ou)>>]
 MUpdate(g, kind, stage, st) ==
     IF stage \notin g.active THEN st
     ELSE IF kind = "in" THEN MInlet(g, st) ELSE MOutlet(g, st)
@@ -238,7 +339,8 @@ BagEq(q1, q2) ==
               = Cardinality({k \in DOMAIN q2 : q2[k] = v})
 Drift(g, c) ==
     c.ok /\ LET m == MUpdate(g, c.kind, c.stage, c.before)
-            IN ~(/\ BagEq(m.inlet, c.after.inlet) /\ BagEq(m.fluid, c.after.fluid)
+            IN ~(/\ m.nreal = c.after.nreal
+                 /\ BagEq(m.inlet, c.after.inlet) /\ BagEq(m.fluid, c.after.fluid)
                  /\ BagEq(Blank(g, m.outlet), Blank(g, c.after.outlet)))
 
 -----------------------------------------------------------------------------
@@ -261,7 +363,7 @@ Drift(g, c) ==
 (*   wide   3 inlet + 3 fluid, Lin 3, Disp -2..3, 1 round,                  *)
 (*          stages {1,2}, both orders (wideq: stage 2, in-out)   662 515    *)
 CONSTANTS Mode, NIn, NFl, NOut, LinC, XC, LoutC, Back, Fwd, Rounds, Stages,
-          OrderNames, CopyQs, WinLo, WinHi, Mutant
+          OrderNames, CopyQs, WinLo, WinHi, Mutant, Tags
 Disp == (-Back)..Fwd                    \* per-particle displacements of one round
 Win == (-WinLo)..WinHi                  \* positions of the "ind" pre-states
 Orders == {o \in {<<"in", "out">>, <<"out", "in">>} :
@@ -270,21 +372,27 @@ Orders == {o \in {<<"in", "out">>, <<"out", "in">>} :
 VARIABLES g, st, calls, phase, cursor, round, nextid, order, stage
 vars == <<g, st, calls, phase, cursor, round, nextid, order, stage>>
 
-MkRow(i, s) == [id |-> i, s |-> s, t1 |-> 0, t2 |-> 0, a |-> 100 + i, b |-> 200 + i]
+MkRow(i, s) == [id |-> i, s |-> s, t1 |-> 0, t2 |-> 0, a |-> 100 + i,
+                b |-> 200 + i, tag |-> 0]
+\* an aligned array from rows of any tags
+Arr(q) == SelectSeq(q, LAMBDA r : r.tag = 0) \o NL(q)
+MkState(i, f, o) == [inlet |-> Arr(i), fluid |-> Arr(f), outlet |-> Arr(o),
+                     nreal |-> <<NLocal(i), NLocal(f), NLocal(o)>>]
 Geo(cq) == [Lin |-> LinC, X |-> XC, Lout |-> LoutC, copyq |-> cq,
             active |-> {2}, slack |-> 0]
 
 HistInit ==
-    st = [inlet  |-> [k \in 1..NIn |-> MkRow(k, -k)],
-          fluid  |-> [k \in 1..NFl |-> MkRow(NIn + k, k - 1)],
-          outlet |-> [k \in 1..NOut |-> MkRow(NIn + NFl + k, XC + k)]]
+    st = MkState([k \in 1..NIn |-> MkRow(k, -k)],
+                 [k \in 1..NFl |-> MkRow(NIn + k, k - 1)],
+                 [k \in 1..NOut |-> MkRow(NIn + NFl + k, XC + k)])
 IndInit ==
     LET N == NIn + NFl + NOut
+        R(i, pos, tg) == [MkRow(i, pos[i]) EXCEPT !.tag = tg[i]]
     IN \E ni \in 0..N : \E nf \in 0..(N - ni) : \E pos \in [1..N -> Win] :
-          st = [inlet  |-> [k \in 1..ni |-> MkRow(k, pos[k])],
-                fluid  |-> [k \in 1..nf |-> MkRow(ni + k, pos[ni + k])],
-                outlet |-> [k \in 1..(N - ni - nf) |->
-                               MkRow(ni + nf + k, pos[ni + nf + k])]]
+       \E tg \in [1..N -> Tags] :
+          st = MkState([k \in 1..ni |-> R(k, pos, tg)],
+                       [k \in 1..nf |-> R(ni + k, pos, tg)],
+                       [k \in 1..(N - ni - nf) |-> R(ni + nf + k, pos, tg)])
 Init ==
     /\ \E cq \in CopyQs : g = Geo(cq)
     /\ IF Mode = "hist" THEN HistInit ELSE IndInit
@@ -320,7 +428,8 @@ Relabel(s, nid) ==
     LET dup == {k \in DOMAIN s.inlet : s.inlet[k].id \in Ids(s.fluid)}
         new(k) == nid + Cardinality({j \in dup : j < k})
     IN [s EXCEPT !.inlet = [k \in DOMAIN s.inlet |->
-            IF k \in dup THEN MkRow(new(k), s.inlet[k].s) ELSE s.inlet[k]]]
+            IF k \in dup THEN [MkRow(new(k), s.inlet[k].s) EXCEPT !.tag = s.inlet[k].tag]
+            ELSE s.inlet[k]]]
 NDup(s) == Cardinality({k \in DOMAIN s.inlet : s.inlet[k].id \in Ids(s.fluid)})
 
 \* Mutant = "none": the mechanism as written.  "ties_other_way" decides every
@@ -328,7 +437,8 @@ NDup(s) == Cardinality({k \in DOMAIN s.inlet : s.inlet[k].id \in Ids(s.fluid)})
 \* values are deliberately wrong mechanisms that P must reject (non-vacuity).
 ShiftAll(s, d) ==
     LET sh(q) == [k \in DOMAIN q |-> [q[k] EXCEPT !.s = @ + d]]
-    IN [inlet |-> sh(s.inlet), fluid |-> sh(s.fluid), outlet |-> sh(s.outlet)]
+    IN [inlet |-> sh(s.inlet), fluid |-> sh(s.fluid), outlet |-> sh(s.outlet),
+        nreal |-> s.nreal]
 DUpdate(kind, sg, s) ==
     CASE Mutant = "none" -> MUpdate(g, kind, sg, s)
       [] Mutant = "ties_other_way" ->
@@ -349,18 +459,28 @@ DUpdate(kind, sg, s) ==
               ELSE m
       [] Mutant = "no_remove" ->
            LET m == MUpdate(g, kind, sg, s)
-           IN IF kind = "out" THEN [m EXCEPT !.fluid = s.fluid] ELSE m
+           IN IF kind = "out"
+              THEN [m EXCEPT !.fluid = s.fluid, !.nreal[2] = s.nreal[2]] ELSE m
       [] Mutant = "keep_far" -> MUpdate([g EXCEPT !.Lout = 1000], kind, sg, s)
       [] Mutant = "ignore_stage" -> MUpdate(g, kind, 2, s)
       [] Mutant = "copy_all_inlet" ->
            LET m == MUpdate(g, kind, sg, s)
            IN IF kind = "in" /\ sg \in g.active
-              THEN [m EXCEPT !.fluid = s.fluid \o s.inlet] ELSE m
+              THEN LET fl == AlignRows(s.fluid \o SubSeq(s.inlet, 1, s.nreal[1]))
+                   IN [m EXCEPT !.fluid = fl, !.nreal[2] = NLocal(fl)]
+              ELSE m
+      [] Mutant = "no_align" ->
+           \* extract_particles(..., align=False), num_real_particles bumped
+           LET m == MUpdate(g, kind, sg, s)
+           IN IF kind = "in" /\ sg \in g.active
+              THEN [m EXCEPT !.fluid = s.fluid \o
+                        SubSeq(m.fluid, s.nreal[2] + 1, m.nreal[2])]
+              ELSE m
       [] Mutant = "drop_prop" ->
            LET m == MUpdate(g, kind, sg, s)
            IN IF kind = "in"
               THEN [m EXCEPT !.fluid = [k \in DOMAIN m.fluid |->
-                      IF k > Len(s.fluid) THEN [m.fluid[k] EXCEPT !.b = 0]
+                      IF m.fluid[k].id \in Ids(s.inlet) THEN [m.fluid[k] EXCEPT !.b = 0]
                       ELSE m.fluid[k]]]
               ELSE m
 
@@ -393,5 +513,5 @@ UniqueIds == Unique(st)
 HarnessLinks == JustCalled /\ Len(calls) >= 2 =>
     LinkOK(calls[Len(calls) - 1].after, calls[Len(calls)].before)
 FluidCount == JustCalled =>
-    Len(st.fluid) = Len(calls[1].before.fluid) + Net(calls)[Len(calls)]
+    st.nreal[2] = calls[1].before.nreal[2] + Net(Views(calls))[Len(calls)]
 =============================================================================
